@@ -35,7 +35,7 @@ DISABLE_PATTERNS_LC = ['# disable_doctest', '# Script', '# Unstable', '# failing
 BASE_KINDS = ['pass', 'fail_out', 'fail_exc', 'fail_last', 'all_skipped', 'req_unmet', 'partly', 'expected_exc', 'comment_only',
               'disabled', 'pass', 'fail_out', 'inline_skipped_after_directive', 'req_after_directive', 'fail_warn', 'pass_warn',
               'fail_directive_first', 'comment_then_skipped', 'skipped_then_comment', 'expected_exc_nomsg', 'expected_exc_qualified',
-              'expected_exc_syntax', 'pass_marker_word_comment']
+              'expected_exc_syntax', 'pass_marker_word_comment', 'runtime_pytest_skip', 'runtime_exit_test']
 OPTION_KINDS = ['needs_ellipsis', 'needs_nw', 'needs_iw']
 MERGEABLE = ('pass', 'fail_out', 'fail_exc', 'fail_last', 'expected_exc')
 
@@ -100,6 +100,13 @@ def block_lines(kind, tid, ind, pattern=None):
         # comments that merely begin with a force-disable word, on lines other than the first: an ordinary doctest
         L += [t, '{}>>> # unstable sorting would also do here'.format(ind), "{}>>> print('out {}')".format(ind, tid), '{}out {}'.format(ind, tid),
               '{}>>> # scripts usually print more'.format(ind), '{}>>> # failing that, nothing happens'.format(ind)]
+    elif kind == 'runtime_pytest_skip':
+        # the doctest body itself calls pytest.skip(): the doctest ends there, gracefully (what ran before counts)
+        L += [t, '{}>>> import pytest'.format(ind), "{}>>> pytest.skip('vp: skipped at run time')".format(ind), "{}>>> print('never')".format(ind),
+              '{}wrong'.format(ind)]
+    elif kind == 'runtime_exit_test':
+        L += [t, '{}>>> import xdoctest'.format(ind), '{}>>> raise xdoctest.ExitTestException()'.format(ind), "{}>>> print('never')".format(ind),
+              '{}wrong'.format(ind)]
     elif kind == 'comment_only':
         L += ['{}>>> # nothing to run here'.format(ind)]
     elif kind == 'disabled':
@@ -124,7 +131,7 @@ def outcome_of(kind, options=()):
         # every statement is skipped from the start; a block -SKIP is not generated
         return 'skipped', False
     if kind in ('pass', 'partly', 'expected_exc', 'pass_warn', 'expected_exc_nomsg', 'expected_exc_qualified', 'expected_exc_syntax',
-                'pass_marker_word_comment'):
+                'pass_marker_word_comment', 'runtime_pytest_skip', 'runtime_exit_test'):
         return 'passed', True
     if kind in ('fail_out', 'fail_exc', 'fail_last', 'fail_warn'):
         return 'failed', True
